@@ -158,10 +158,12 @@ impl WriteAheadLog {
             current_size = valid_len;
         }
 
-        let next_seq = match last_sequence_in_segments(&segments)? {
-            Some(last_seq) => last_seq + 1,
-            None => 1,
-        };
+        // Segments up to the flushed mark may already have been removed, so the
+        // log alone can be empty (or hold only older entries) after a restart:
+        // never hand out a sequence number at or below the persisted mark.
+        let last_seq = last_sequence_in_segments(&segments)?.unwrap_or(0);
+        let flushed_seq = load_flushed_seq(&config.wal_dir)?;
+        let next_seq = last_seq.max(flushed_seq) + 1;
 
         Ok(Self {
             config,
